@@ -37,6 +37,14 @@ struct TRange : Tracked {
     bool empty() const { return r.empty(); } bool is_divisible() const { return r.is_divisible(); }
     int begin() const { return r.begin(); } int end() const { return r.end(); }
 };
+// a pipeline token that the library has to allocate, copy / move and destroy itself (larger than a pointer, not trivially copyable): every copy is tracked
+struct TTok : Tracked {
+    int v; int pad[3] = {0, 0, 0};
+    explicit TTok(int x) : v(x) {}
+    TTok(const TTok& o) : Tracked(), v(o.v) { born(); }
+    TTok(TTok&& o) : Tracked(), v(o.v) { born(); }
+    TTok& operator=(const TTok& o) { v = o.v; return *this; }
+};
 // Injected exceptions thrown outside a Scope (range copy/split) carry negative ids: they count as thrown by the call
 static void note_unscoped_throw(int id) { TR.emit("{\"e\":\"BB\",\"i\":%d}", id); TR.emit("{\"e\":\"Throw\",\"id\":%d,\"cls\":9}", id); }
 
@@ -81,6 +89,10 @@ static void program(const std::string& p) {
                 tbb::make_filter<void, int>(tbb::filter_mode::serial_in_order, [&](tbb::flow_control& fc) -> int { Scope s(FC_FILTER); if (n >= 6) { fc.stop(); return 0; } return ++n; }) &
                 tbb::make_filter<int, int>(tbb::filter_mode::parallel, [](int x) { Scope s(FC_BODY); return x * 2; }) &
                 tbb::make_filter<int, void>(tbb::filter_mode::serial_out_of_order, [](int) { Scope s(FC_JOIN); })); });
+        else if (p == "pipelineT") call("pipelineT", [&] { int n = 0; tbb::parallel_pipeline(3,          // tokens owned by the library: a throwing later filter must not make it destroy one twice (or never)
+                tbb::make_filter<void, TTok>(tbb::filter_mode::serial_in_order, [&](tbb::flow_control& fc) -> TTok { Scope s(FC_FILTER); if (n >= 5) { fc.stop(); return TTok(0); } return TTok(++n); }) &
+                tbb::make_filter<TTok, TTok>(tbb::filter_mode::parallel, [](const TTok& x) { Scope s(FC_BODY); return TTok(x.v * 2); }) &
+                tbb::make_filter<TTok, void>(tbb::filter_mode::serial_out_of_order, [](const TTok&) { Scope s(FC_JOIN); })); });
         else if (p == "taskgroup") { static tbb::task_group* tg = nullptr; if (!tg) tg = new tbb::task_group; call("taskgroup", [&] {
                 for (int k = 0; k < 3; k++) tg->run([k] { Scope s(FC_BODY); tbb::task_group in; in.run([] { Scope s2(FC_JOIN); }); in.run_and_wait([] { Scope s3(FC_JOIN); }); });
                 tg->wait(); }); }
